@@ -24,46 +24,112 @@ def _(c):
     f, w = _edge(c, "_keplerian_to_cartesian", mu)
     g, _ = _edge(c, "_cartesian_to_keplerian", mu)
     p = a * (1 - e ** 2)
-    r = p / den
-    h = sym.sqrt(mu * p)
     u = wp + nu
     cO, sO, ci, si, cu, su, cn, sn = sym.cos(O), sym.sin(O), sym.cos(i), sym.sin(i), sym.cos(u), sym.sin(u), sym.cos(nu), sym.sin(nu)
     c.principal("i_principal", i)
     c.lemma("sin_i_positive", si > 0, using=["pre", "i_principal"], budget_ms=B)
-    c.lemma("r_positive", r > 0, using=["pre"], budget_ms=B)
-    c.lemma("h_positive", sym.And(h > 0, h * h == mu * p), using=["pre"], budget_ms=B)
+    # ghost names: scalars of the orbit and its radial / transverse / normal basis
+    r = c.ghost("r", p / den)
+    h = c.ghost("h", sym.sqrt(mu * p))
+    c.lemma("r_positive", sym.And(r > 0, r * den == p), using=["pre", "r"], budget_ms=B)
+    c.lemma("h_positive", sym.And(h > 0, h * h == mu * p), using=["pre", "h"], budget_ms=B)
+    vr = c.ghost("vr", h * e * sn / p)
+    vt = c.ghost("vt", h / r)
+    c.lemma("vr_def", vr * p == h * e * sn, using=["pre", "vr"], budget_ms=B)
+    c.lemma("vt_def", vt * r == h, using=["vt", "r_positive"], budget_ms=B)
+    Ue = [cO * cu - sO * su * ci, sO * cu + cO * su * ci, si * su]
+    Te = [-(cO * su + sO * cu * ci), -(sO * su - cO * cu * ci), si * cu]
+    We = [si * sO, -si * cO, ci]
+    U = [c.ghost(f"U{k}", Ue[k]) for k in range(3)]
+    T = [c.ghost(f"T{k}", Te[k]) for k in range(3)]
+    W = [c.ghost(f"W{k}", We[k]) for k in range(3)]
+    basis = [f"U{k}" for k in range(3)] + [f"T{k}" for k in range(3)] + [f"W{k}" for k in range(3)]
+    c.lemma("U_unit", U[0] * U[0] + U[1] * U[1] + U[2] * U[2] == 1, using=basis, budget_ms=B)
+    c.lemma("T_unit", T[0] * T[0] + T[1] * T[1] + T[2] * T[2] == 1, using=basis, budget_ms=B)
+    c.lemma("U_T_orthogonal", U[0] * T[0] + U[1] * T[1] + U[2] * T[2] == 0, using=basis, budget_ms=B)
+    c.lemma("W_unit", W[0] * W[0] + W[1] * W[1] + W[2] * W[2] == 1, using=basis, budget_ms=B)
+    c.lemma("U_cross_T.0", U[1] * T[2] - U[2] * T[1] == W[0], using=basis, budget_ms=B)
+    c.lemma("U_cross_T.1", U[2] * T[0] - U[0] * T[2] == W[1], using=basis, budget_ms=B)
+    c.lemma("U_cross_T.2", U[0] * T[1] - U[1] * T[0] == W[2], using=basis, budget_ms=B)
     x = f([a, e, i, O, wp, nu])
-    X, Y, Z, VX, VY, VZ = (x[k] for k in range(6))
-    U = [cO * cu - sO * su * ci, sO * cu + cO * su * ci, si * su]
-    T = [-(cO * su + sO * cu * ci), -(sO * su - cO * cu * ci), si * cu]
-    W = [si * sO, -si * cO, ci]
-    vr, vt = h * e * sn / p, h / r
-    for k, (P_, V_) in enumerate(zip((X, Y, Z), (VX, VY, VZ))):
-        c.lemma(f"position.{k}", P_ == r * U[k], using=["pre"], budget_ms=B)
-        c.lemma(f"velocity.{k}", V_ == vr * U[k] + vt * T[k], using=["pre", "r_positive", "h_positive"], budget_ms=B)
-    c.lemma("U_unit", U[0] * U[0] + U[1] * U[1] + U[2] * U[2] == 1, using=[], budget_ms=B)
-    c.lemma("T_unit", T[0] * T[0] + T[1] * T[1] + T[2] * T[2] == 1, using=[], budget_ms=B)
-    c.lemma("U_T_orthogonal", U[0] * T[0] + U[1] * T[1] + U[2] * T[2] == 0, using=[], budget_ms=B)
-    c.lemma("W_unit", W[0] * W[0] + W[1] * W[1] + W[2] * W[2] == 1, using=[], budget_ms=B)
-    c.lemma("U_cross_T.0", U[1] * T[2] - U[2] * T[1] == W[0], using=[], budget_ms=B)
-    c.lemma("U_cross_T.1", U[2] * T[0] - U[0] * T[2] == W[1], using=[], budget_ms=B)
-    c.lemma("U_cross_T.2", U[0] * T[1] - U[1] * T[0] == W[2], using=[], budget_ms=B)
-    c.lemma("r_vt_is_h", r * vt == h, using=["r_positive"], budget_ms=B)
+    # ghost names for the six cartesian coordinates the code produced
+    G = [c.ghost(n, x[k]) for k, n in enumerate(("X", "Y", "Z", "VX", "VY", "VZ"))]
+    gX, gY, gZ, gVX, gVY, gVZ = G
+    for k, (n, vn) in enumerate((("X", "VX"), ("Y", "VY"), ("Z", "VZ"))):
+        c.lemma(f"position.{k}", G[k] == r * U[k], using=["pre", "r", f"U{k}", n], budget_ms=B)
+        c.lemma(f"velocity.{k}", G[k + 3] == vr * U[k] + vt * T[k], using=["pre", "r", "h", "vr", "vt", f"U{k}", f"T{k}", n, vn], budget_ms=B)
+    pos = [f"position.{k}" for k in range(3)]
+    vel = [f"velocity.{k}" for k in range(3)]
+    coords = ["X", "Y", "Z", "VX", "VY", "VZ"]
+    # algebra on the ghost names only
+    c.lemma("r_squared", gX * gX + gY * gY + gZ * gZ == r * r, using=pos + ["U_unit"], budget_ms=B)
+    quad = sum((vr * U[k] + vt * T[k]) * (vr * U[k] + vt * T[k]) for k in range(3))
+    c.lemma("basis_quadratic", quad == vr * vr + vt * vt, using=["U_unit", "T_unit", "U_T_orthogonal"], budget_ms=B)
+    c.lemma("v_squared", gVX * gVX + gVY * gVY + gVZ * gVZ == vr * vr + vt * vt, using=vel + ["basis_quadratic"], budget_ms=B)
+    c.lemma("r_dot_v", gX * gVX + gY * gVY + gZ * gVZ == r * vr, using=pos + vel + ["U_unit", "U_T_orthogonal"], budget_ms=B)
+    gh = [gY * gVZ - gZ * gVY, gZ * gVX - gX * gVZ, gX * gVY - gY * gVX]
+    for k in range(3):
+        c.lemma(f"h_vector.{k}", gh[k] == h * W[k], using=pos + vel + [f"U_cross_T.{k}", "vt_def"], budget_ms=B)
+    c.lemma("h_squared", gh[0] * gh[0] + gh[1] * gh[1] + gh[2] * gh[2] == h * h, using=["h_vector.0", "h_vector.1", "h_vector.2", "W_unit"], budget_ms=B)
+    c.lemma("vis_viva", (vr * vr + vt * vt) * r * a == mu * (2 * a - r), using=["pre", "h_positive", "r_positive", "vr_def", "vt_def"], budget_ms=B)
     # the code's own intermediate quantities, built with the same operations as the source (same terms, hence the same auxiliary variables)
     npx = w.np
-    rv, vv = np.array([X, Y, Z], dtype=object), np.array([VX, VY, VZ], dtype=object)
+    rv, vv = np.array([x[0], x[1], x[2]], dtype=object), np.array([x[3], x[4], x[5]], dtype=object)
     hv = npx.cross(rv, vv)
-    for k in range(3):
-        c.lemma(f"h_vector.{k}", hv[k] == h * W[k], using=[f"position.{j}" for j in range(3)] + [f"velocity.{j}" for j in range(3)] + [f"U_cross_T.{k}", "r_vt_is_h"], budget_ms=B)
+    c.run.safety_using = ["pre"]  # (a sum of squares is non-negative whatever is known)
     h_norm = npx.linalg.norm(hv)
     r_norm = npx.linalg.norm(rv)
     v_norm = npx.linalg.norm(vv)
-    c.lemma("h_norm", h_norm == h, using=["h_vector.0", "h_vector.1", "h_vector.2", "W_unit", "h_positive"], budget_ms=B)
-    c.lemma("r_norm", r_norm == r, using=["position.0", "position.1", "position.2", "U_unit", "r_positive"], budget_ms=B)
-    c.lemma("v_norm_squared", v_norm ** 2 == vr * vr + vt * vt, using=["velocity.0", "velocity.1", "velocity.2", "U_unit", "T_unit", "U_T_orthogonal"], budget_ms=B)
-    c.lemma("vis_viva", vr * vr + vt * vt == mu * (2 / r - 1 / a), using=["pre", "h_positive", "r_positive"], budget_ms=B)
+    c.run.safety_using = ["pre", "r_norm", "r_positive", "h_norm", "h_positive", "energy", "a_back", "ecc_arg"]  # (labels of lemmas: each counts once it has been stated)
+    ghv = [c.ghost(f"hv{k}", hv[k]) for k in range(3)]
+    for k in range(3):
+        c.lemma(f"hv.{k}", ghv[k] == gh[k], using=coords + [f"hv{k}"], budget_ms=B)
+    c.lemma("r_norm", r_norm == r, using=coords + ["r_squared", "r_positive"], budget_ms=B)
+    c.lemma("h_norm_squared", h_norm * h_norm == ghv[0] * ghv[0] + ghv[1] * ghv[1] + ghv[2] * ghv[2], using=["hv0", "hv1", "hv2"], budget_ms=B)
+    c.lemma("h_norm", h_norm == h, using=["h_norm_squared", "hv.0", "hv.1", "hv.2", "h_squared", "h_positive"], budget_ms=B)
+    c.lemma("v_norm_squared", v_norm ** 2 == vr * vr + vt * vt, using=coords + ["v_squared"], budget_ms=B)
     K = v_norm ** 2 / 2 - mu / r_norm
     c.lemma("energy", K * (2 * a) == -mu, using=["v_norm_squared", "vis_viva", "r_norm", "r_positive", "pre"], budget_ms=B)
-    c.run.safety_using = ["pre", "r_norm", "r_positive", "h_norm", "h_positive", "energy", "sin_i_positive"]
+    a_back = -mu / (2 * K)
+    c.lemma("a_back", a_back == a, using=["energy", "pre"], budget_ms=B)
+    c.lemma("ecc_arg", 1 - h_norm ** 2 / (a_back * mu) == e * e, using=["a_back", "h_norm", "h_positive", "pre"], budget_ms=B)
+    c.lemma("cos_inc_arg", hv[2] / h_norm == ci, using=["hv2", "hv.2", "h_vector.2", "W2", "h_norm", "h_positive"], budget_ms=B)
+    c.lemma("node_vector", sym.And(hv[0] == h * si * sO, hv[1] == -(h * si * cO)), using=["hv0", "hv1", "hv.0", "hv.1", "h_vector.0", "h_vector.1", "W0", "W1"], budget_ms=B)
+    e_back = npx.sqrt(1 - h_norm ** 2 / (a_back * mu))
+    c.lemma("e_back", e_back == e, using=["ecc_arg", "pre"], budget_ms=B)
+    p_back = a_back * (1 - e_back ** 2)
+    c.lemma("p_back", p_back == p, using=["a_back", "e_back"], budget_ms=B)
+    c.lemma("p_over_mu", p_back / mu >= 0, using=["p_back", "pre"], budget_ms=B)
+    c.run.safety_using = ["pre", "r_norm", "r_positive", "h_norm", "h_positive", "energy", "a_back", "ecc_arg", "cos_inc_arg", "sin_i_positive", "e_back", "p_back", "p_over_mu"]
+    c.run.safety_assumed = {"arctan2": "the two arguments of each arctan2 are not both zero (they are r sin/cos, h sin i sin/cos, r e sin/cos of an angle with r, h, e, sin i > 0): exercised by the bounded stand-in; numpy itself never raises here"}
     k = g(list(x))
-    c.ensure("back.a", k[0] == a, using=["energy", "pre"], budget_ms=B)
+    c.lemma("back.a", k[0] == a, using=["a_back"], budget_ms=B)
+    c.lemma("back.e", k[1] == e, using=["e_back"], budget_ms=B)
+    c.lemma("back.i.cos", sym.cos(k[2]) == ci, using=["cos_inc_arg"], budget_ms=B)
+    c.lemma("back.raan", sym.And(sym.cos(k[3]) == cO, sym.sin(k[3]) == sO), using=["node_vector", "sin_i_positive", "h_positive"], budget_ms=B)
+    # true anomaly: atan2(sqrt(p/mu) (v.r), p - |r|) = atan2(r e sin nu, r e cos nu)
+    vdotr = npx.dot(vv, rv)
+    c.lemma("v_dot_r", vdotr == r * vr, using=coords + ["r_dot_v"], budget_ms=B)
+    root = npx.sqrt(p_back / mu)
+    c.lemma("root_p_mu", root * h == p, using=["p_back", "h_positive", "pre", "p_over_mu"], budget_ms=B)
+    c.lemma("nu_sine_arg", root * vdotr == r * e * sn, using=["root_p_mu", "v_dot_r", "vr_def", "h_positive", "pre"], budget_ms=B)
+    c.lemma("p_minus_r", p - r == r * e * cn, using=["r_positive"], budget_ms=B)
+    c.lemma("nu_cosine_arg", p_back - r_norm == r * e * cn, using=["p_back", "r_norm", "p_minus_r"], budget_ms=B)
+    c.lemma("back.nu", sym.And(sym.cos(k[5]) == cn, sym.sin(k[5]) == sn), using=["~nu_sine_arg", "~nu_cosine_arg", "r_positive", "pre", "@depth=2"], budget_ms=B)
+    # argument of latitude: atan2(z / sin i, x cos W + y sin W) = atan2(r sin u, r cos u); then the perigee is what is left
+    c.lemma("sin_inc_back", sym.sin(k[2]) == si, using=["back.i.cos", "sin_i_positive", "@depth=2"], budget_ms=B)
+    aol_y = x[2] / sym.sin(k[2])
+    aol_x = x[0] * sym.cos(k[3]) + x[1] * sym.sin(k[3])
+    c.lemma("aol_sine_arg", aol_y == r * su, using=["~Z", "position.2", "U2", "sin_inc_back", "sin_i_positive", "r_positive", "@depth=2"], budget_ms=B)
+    c.lemma("aol_cosine_arg", aol_x == r * cu, using=["~X", "~Y", "position.0", "position.1", "U0", "U1", "back.raan", "@depth=2"], budget_ms=B)
+    c.lemma("u_unit", cu * cu + su * su == 1, using=[], budget_ms=B)
+    gcu, gsu = c.ghost("cu", cu), c.ghost("su", su)
+    c.lemma("u_unit.g", gcu * gcu + gsu * gsu == 1, using=["u_unit", "cu", "su"], budget_ms=B)
+    c.lemma("aol_sine_arg.g", aol_y == r * gsu, using=["aol_sine_arg", "su"], budget_ms=B)
+    c.lemma("aol_cosine_arg.g", aol_x == r * gcu, using=["aol_cosine_arg", "cu"], budget_ms=B)
+    aol = npx.arctan2(aol_y, aol_x)   # the same two terms as in the source: the same angle
+    c.lemma("aol_back.g", sym.And(sym.cos(aol) == gcu, sym.sin(aol) == gsu), using=["~aol_sine_arg.g", "~aol_cosine_arg.g", "u_unit.g", "r_positive", "@depth=2"], budget_ms=B)
+    c.lemma("aol_back", sym.And(sym.cos(aol) == cu, sym.sin(aol) == su), using=["aol_back.g", "cu", "su", "@depth=1"], budget_ms=B)
+    c.ensure("back.argp", sym.And(sym.cos(k[4]) == sym.cos(wp), sym.sin(k[4]) == sym.sin(wp)), using=["aol_back", "back.nu", "@depth=1"], budget_ms=B)
+    c.ensure("back.all", sym.And(k[0] == a, k[1] == e, sym.cos(k[2]) == ci, sym.cos(k[3]) == cO, sym.sin(k[3]) == sO, sym.cos(k[5]) == cn, sym.sin(k[5]) == sn),
+             using=["back.a", "back.e", "back.i.cos", "back.raan", "back.nu"], budget_ms=B)
